@@ -109,7 +109,25 @@ func TestDeltaBitPacking(t *testing.T) {
 			data := append([]byte(nil), enc.Bytes()...)
 			// trailing bytes after the packed block must not matter (blocks are embedded in files)
 			data = append(data, rapid.SliceOfN(rapid.Byte(), 0, 3).Draw(t, l+"trail")...)
-			if dec == nil || rapid.IntRange(0, 3).Draw(t, l+"newDec") == 0 {
+			damagedBefore := false
+			if rapid.IntRange(0, 2).Draw(t, l+"damagedFirst") == 0 {
+				// a damaged block first (header or packed deltas cut, flipped, junk): whatever the decoder makes
+				// of it, after Reset it must read the intact block exactly
+				bad, kind := damageBytes(t, l+"dmg", data, 0)
+				noPanic(t, fmt.Sprintf("round %d, damaged block (%s, %d of %d bytes)", round, kind, len(bad), len(data)), func() {
+					if dec == nil {
+						dec = encoding.NewDeltaBitPackingDecoder(bad)
+					} else {
+						dec.Reset(bad)
+					}
+					for k := 0; k < 300 && dec.HasNext(); k++ {
+						_ = dec.Next()
+					}
+				})
+				classes = append(classes, "damaged-block-before", "damaged="+kind)
+				damagedBefore = true
+			}
+			if !damagedBefore && (dec == nil || rapid.IntRange(0, 3).Draw(t, l+"newDec") == 0) {
 				dec = encoding.NewDeltaBitPackingDecoder(data)
 			} else {
 				dec.Reset(data)
@@ -131,7 +149,7 @@ func TestDeltaBitPacking(t *testing.T) {
 				t.Fatalf("round %d: HasNext true after %d values", round, len(vals))
 			}
 			w := deltaWidth(vals)
-			if len(vals) >= 2 && (w >= 17 || round > 0) {
+			if len(vals) >= 2 && (w >= 17 || round > 0 || damagedBefore) {
 				nt = true
 			}
 			classes = append(classes, "kind="+kind, fmt.Sprintf("widthBytes=%d", (w+7)/8))
